@@ -6,7 +6,7 @@ share the folders and - in clustered mode - one L2 cache (the Redis adapter talk
 clock run by the harness), with FLUSHALL / key eviction / clock advances (TTL expiry) between any two steps; and from a
 single process in standalone mode (in-memory L2) with L2 clears.  TLC validates every operation result and every
 full observation of every process."""
-import collections, json, os, sys
+import collections, json, os, re, sys
 sys.path.insert(0, os.path.dirname(os.path.abspath(__file__)))
 import vlib, txnlib, _txncfg
 
@@ -42,18 +42,59 @@ def classify(r):
     if ev in ("Observe", "Op") and (ev == "Observe" or raw.get("op") in txnlib.READ_OPS):
         sym = "stale-read"
     elif ev == "CommitEnd" and not raw.get("ok"):
-        sym = "commit-failed-on-stale-view" if "newer version" in raw.get("note", "") else "commit-failed"
+        note = raw.get("note", "").lower()
+        sym = ("commit-failed-on-stale-view" if ("newer version" in note or "failed to merge" in note) else
+               "commit-failed:retry-limit" if "retry limit" in note else
+               "commit-failed:timeout" if ("timed out" in note or "deadline" in note) else
+               "commit-failed:item-lock-conflict" if "detected conflict" in note else "commit-failed:other")
     else:
         sym = "other:%s:%s" % (ev, raw.get("op", ""))
     return ("%s|%s|last-commit-by=%s" % (mode, sym, rel),
             "process %s: %s (successful commits so far by %s): %s" % (who, sym, lastw, json.dumps(raw)[:260]))
 
 
+def design_level(c, binp, classes):
+    """CacheCoherence.tla: the cache protocol itself.  One process (standalone) and any number of processes without the
+    pre-commit L1 fast path satisfy ReadsLatest; with the fast path and two processes TLC produces the shortest
+    stale-read behaviour, which is replayed on the real code (two OS processes sharing the RESP-served L2)."""
+    c.tlc_must_pass("CacheCoherence", "CacheCoherence_one.cfg", workers=4, timeout=600)
+    c.tlc_must_pass("CacheCoherence", c.pick("CacheCoherence_nofast.cfg", "CacheCoherence_nofast_thorough.cfg"), workers=8, timeout=c.pick(600, 1800))
+    r = c.tlc("CacheCoherence", "CacheCoherence_cex.cfg", workers=1, timeout=300)
+    m = re.search(r'<<"CEX", "(.*)">>', r.out)
+    info = dict(design_counterexample=None, reproduced_on_code=None)
+    if r.ok or not m:
+        c.cov["cache_design"] = info
+        return 0
+    hist = json.loads(vlib.tla_unquote('"' + m.group(1) + '"'))
+    info["design_counterexample"] = hist
+    # model steps -> driver steps: read..commit of one process = one read-modify-write transaction; a read that is not
+    # followed by that process's commit = an observation by a fresh reader transaction of that process
+    steps = []
+    for i, h in enumerate(hist):
+        if h["a"] == "commit":
+            steps.append("txn@" + h["p"])
+        elif h["a"] in ("read", "readfast"):
+            later = [x for x in hist[i + 1:] if x["p"] == h["p"] and x["a"] in ("commit", "end", "conflict")]
+            if not (later and later[0]["a"] in ("commit", "conflict")):
+                steps.append("observe@" + h["p"])
+        elif h["a"] == "evictl2":
+            steps.append("flushall")
+    g = _txncfg.gen(c, "z", MaxTxns=1, MaxOps=1, Keys=6, Slots=[4], Placements=["node"])
+    cfg = _txncfg.cfg(c, "cachecex", 1, g, clustered=True, script=steps)
+    traces = txnlib.run_driver(c, binp, "cache", cfg, timeout=600)
+    info["replayed_steps"] = steps
+    got = txnlib.validate_skipping(c, traces, "TxnStoreTrace.cfg", classify, chunk=1, max_skips=2)
+    info["reproduced_on_code"] = bool(got)
+    classes += got
+    c.cov["cache_design"] = info
+    return len(traces)
+
+
 def run(c):
     binp = c.build("txn")
     c.tlc_must_pass("TxnStoreMC", "TxnStoreMC.cfg", workers=8, timeout=300)
     classes = collections.Counter()
-    total = 0
+    total = design_level(c, binp, classes)
     for clustered, progs in ((False, c.pick(25, 250)), (True, c.pick(20, 200))):
         g = _txncfg.gen(c, "q", MaxTxns=8, MaxOps=4, Keys=6, Slots=[2, 4], Placements=["node", "segment", "global", "active"])
         cfg = _txncfg.cfg(c, "cache%d" % clustered, progs, g, clustered=clustered)
